@@ -115,6 +115,10 @@ fn main() {
                 println!("{}", &s[..s.len().min(300)]);
             }
             println!("{}", serde_json::to_string_pretty(&obs.docs).unwrap());
+            if let Some(d) = &obs.duo {
+                println!("duo: switches={} labels={:?}", d.switches, d.labels);
+                println!("duo: partner exit={:?} fs_after={:?}", d.partner.exit_status, d.partner.fs_after);
+            }
             println!(
                 "exit={:?} sig={:?} abort={:?} panic={:?} herr={:?}\nstderr: {}",
                 obs.exit_status, obs.exit_signal, obs.sim_abort, obs.panic, obs.harness_error, obs.stderr
@@ -199,6 +203,7 @@ pub fn lanes_for(prop: &str, tier: &str, seed: u64) -> Vec<Scenario> {
             v.extend(gen_cli::lane_create(seed));
             v.extend(gen_cli::lane_fs_faults(seed));
             v.extend(gen_cli::lane_closed_output(seed));
+            v.extend(gen_cli::lane_duo(seed, if thorough { 2_000 } else { 240 }));
             v.extend(gen_cli::lane_cli_fates(seed, if thorough { 1 } else { 6 }));
             v.extend(gen_cli::lane_random(Tier::Cli, seed, n_rand_cli * 2, "C18"));
         }
@@ -242,6 +247,9 @@ fn extra_chunk(prop: &str, seed: u64, k: usize) -> Vec<Scenario> {
     }
     if prop == "C12" {
         v.extend(gen_cli::lane_state(seed ^ (k as u64 + 1).wrapping_mul(0x9e37), 20_000));
+    }
+    if prop == "C18" {
+        v.extend(gen_cli::lane_duo(seed ^ (k as u64 + 1).wrapping_mul(0x9e37), 2_000));
     }
     v
 }
@@ -516,6 +524,8 @@ fn selftest_determinism(n: usize) -> i32 {
         let step = (l.len() / n.max(1)).max(1);
         all.extend(l.into_iter().step_by(step));
     }
+    // two scrut processes at the same time: the interleaving must replay as well
+    all.extend(gen_cli::lane_duo(seed ^ 0x5e1f, n.min(400)));
     println!("vsim: determinism self-test over {} scenarios, each run twice on different workers", all.len());
     let scenarios = Arc::new(all);
     let run = |threads: usize| -> Vec<String> {
